@@ -452,6 +452,12 @@ Definition stages_ok (w : wf) : bool :=
   forallb (fun c => forallb (fun s => existsb (fun c' => N.eqb (c_stage c') (N.of_nat s)) (w_comps w))
                             (seq 0 (N.to_nat (c_stage c)))) (w_comps w).
 
+(* the global variables are also resolved on their own when the configuration is initialised: a cycle among them
+   is fatal even when every component shadows them (an undefined name there is not) *)
+Definition gvars_acyclic (w : wf) : bool :=
+  acyclic_b String.eqb
+    (map (fun e => (fst e, filter (fun u => kmem String.eqb u (map fst (w_gvars w))) (snd e))) (w_gvars w)).
+
 Section Accept.
   Variable cs : schema.      (* the regenerated type_flowir_component('full') *)
 
@@ -461,7 +467,7 @@ Section Accept.
   Definition accept (w : wf) : bool :=
     forallb schema_ok (w_comps w) && uniq cid_eqb (ids w) && refs_exist w &&
     acyclic_b cid_eqb (graph_of w) && forallb (fun c => vars_defined w c && vars_acyclic w c) (w_comps w) &&
-    stages_ok w.
+    stages_ok w && gvars_acyclic w.
 
   (* why a workflow is rejected: 1 schema, 2 duplicate identifier, 3 unknown reference, 4 cycle, 5 variables,
      6 stage indices with a gap *)
@@ -471,7 +477,8 @@ Section Accept.
     (if refs_exist w then [] else [3]) ++
     (if acyclic_b cid_eqb (graph_of w) then [] else [4]) ++
     (if forallb (fun c => vars_defined w c && vars_acyclic w c) (w_comps w) then [] else [5]) ++
-    (if stages_ok w then [] else [6]).
+    (if stages_ok w then [] else [6]) ++
+    (if gvars_acyclic w then [] else [5]).
 
   (* ---------------------------------------------------------------- single-fault mutations *)
   Fixpoint upd_nth {A} (i : nat) (f : A -> A) (l : list A) : list A :=
